@@ -5,7 +5,7 @@ CFG = {
             "mux_dispatch_total", "mux_dispatch_refines_spec", "mux_dispatch_err_iff", "mux_dispatch_legacy_panics",
             "read_exact_arm_total", "mux_data_split_bounded", "mux_inbound_never_panics_and_bounded",
             "mux_inbound_terminates", "spawn_ids_in_range", "mux_handshake_read_total",
-            "frame_len_checked_before_alloc", "frame_recv_ok_iff", "frame_unchecked_allocates", "preface_alloc_bounded",
+            "frame_len_checked_before_alloc", "frame_recv_ok_iff", "mux_recv_ok_iff", "truncated_frame_rejected", "frame_unchecked_allocates", "preface_alloc_bounded",
             "noise_buffers_in_bounds", "noise_frame_always_fits",
             "timestamp_read_total", "duration_read_total", "duration_read_ok_iff", "duration_read_value",
             "timestamp_read_legacy_panics", "duration_legacy_panics_iff", "timestamp_display_total", "timestamp_display_legacy_panics", "timestamp_display_legacy_panics_iff", "timestamp_debug_total", "timestamp_debug_legacy_panics", "timestamp_debug_legacy_panics_iff",
@@ -25,7 +25,9 @@ CFG = {
                       "terminates, pieces <= read_frame_size and sum = length; the inbound mux loop never panics on any byte "
                       "string and never parks more than read_frame_count frames / read_buffer_size bytes while the application "
                       "does not read; spawn_streams only builds valid stream ids for any peer handshake; recv_proto / "
-                      "mux_recv_proto / preface::accept allocate at most max_size per message; the noise read path never "
+                      "mux_recv_proto / preface::accept allocate at most max_size per message, return a value iff the whole announced "
+                      "body arrived and decodes, and reject every frame cut short by end of stream whatever the decoder would say "
+                      "about the prefix (truncated_frame_rejected); the noise read path never "
                       "slices out of range, keeps both buffers within the generated capacities, always fits a complete frame and "
                       "terminates, for every byte stream, fragmentation and decryption oracle; Timestamp/Duration/BitVector/"
                       "SocketAddr/RateLimit reads are total with exact acceptance conditions; every ProtoFmt/ProtoRepr::read of "
@@ -76,7 +78,10 @@ CFG = {
                 "sequences against small (read_frame_size, read_buffer_size, read_frame_count) with and without OPEN, maximal "
                 "DATA frames, mux handshakes with missing/duplicate/maximal capabilities incl. 8192+8192 streams; frames: "
                 "length prefix = true / max / max+1 / 2^26 / 2^32-1 / body+-1, truncations; RPC calls by a raw mux peer per "
-                "capability; preface over TCP loopback (each stage valid / oversized / truncated / garbage / tampered); "
+                "capability; ~85 `trunc` cases: valid push_validator_addrs (1/2/5 entries), get_block response/request, ping, "
+                "push_tx, push_block_store_state and consensus requests announced with their full length on a real mux stream "
+                "but cut at offset 0, at every top-level field boundary (+1), mid-field and not at all, then CLOSEd, through the "
+                "real frame::mux_recv_proto (monitor: no value may be delivered when fewer than the announced bytes arrived); preface over TCP loopback (each stage valid / oversized / truncated / garbage / tampered); "
                 "noise: authentic, empty, tampered, junk and truncated frames up to 65535 bytes under several fragmentations; "
                 "canonical_raw on a schema with repeated scalars incl. empty packed chunks; selection function on the view "
                 "wrap-around grid; CommitQC/TimeoutQC verification and get_implied_block on bitmaps of every length class and "
